@@ -110,7 +110,8 @@ def harnesses(tier, seed):
         for y in ys:
             yi = sum(y)
             _judge(ctx, {"strategy": st, "x": list(xp), "y": list(y), "n": n, "p": RC.pkey(p),
-                         "y_off": float(2 ** 40) if yi % 7 == 3 else 0, "twice": yi % 5 == 1})
+                         "y_off": float(2 ** 40) if yi % 7 == 3 else 0, "twice": yi % 5 == 1,
+                         "x_img": (None, None, "tiny", None, "jitter", None)[yi % 6], "poison": yi % 4 == 2})
         if n == 5 and xp == W.XPATTERNS[0] and st == "expfix" and p.get("exp") == 2:
             ctx.sample({"strategy": st, "x": list(xp), "n": n, "p": RC.pkey(p), "y": "all of the value lattice ^5"})
 
@@ -127,8 +128,9 @@ def harnesses(tier, seed):
     def simple_body(ctx):
         g = ctx.choose([g for m in (2, 3, 4, 5) for g in A.grids(6, m)], "grid")
         n = ctx.choose([2, 3, 5, 16], "n")
+        img = ctx.choose([None, "tiny", "jitter"], "x-image")
         for y in itertools.product(A.VPM, repeat=len(g)):
-            judge(ctx, check_simple, {"x": list(g), "y": list(y), "n": n}, calls=2, bulk=True)
+            judge(ctx, check_simple, {"x": A.ximage(g, img), "y": list(y), "n": n}, calls=2, bulk=True)
 
     def const_body(ctx):
         st = ctx.choose(RC.STRATS, "strategy")
